@@ -4,7 +4,8 @@
      external (issued by the environment): Start, Arrive, Send, LocalClose, StartAgain, PeerClose, PeerRead, PeerByte,
                                            RecvFault (read error / read timeout / handler error / handler panic),
                                            WriteFault (write error / write timeout)
-     internal (the accept goroutine): Accept (takes the oldest waiting connection, compares the count with the maximum)
+     internal (the accept goroutine): Accept (takes the oldest waiting connection, compares the count with the maximum),
+                                      AcceptFail (temporary error of ln.Accept: retry counter, give up at acceptMaxRetry)
      internal (the session's own goroutines): SendStep (one iteration of loopSend), SendLost (a write into a TCP
                                            connection whose peer is gone), RecvEnd (loopReceive leaves)            *)
 From Coq Require Import ZArith List Bool Lia Arith.
@@ -17,6 +18,13 @@ Inductive transport := Pipe | Tcp.
    value / with a value of a user type, the handler calls runtime.Goexit.  All of them run the deferred quit. *)
 Inductive rkind := RErr | RTimeout | RHandlerErr | RPanic | RPanicNil | RPanicErr | RPanicCustom | RGoexit.
 Inductive wkind := WErr | WTimeout.
+
+(* Session.rh: 0 = none installed (the manager's handler is used), h > 0 = the h-th handler given to UpdateHandler *)
+Record hinfo := mkHx {
+  hid : nat;        (* the handler in charge now: loopReceive and quit read s.rh each time they need it *)
+  exit_h : nat;     (* the handler whose OnExit was called (meaningful once the exit ran) *)
+  amb : bool        (* ghost: UpdateHandler was called when something that can end the session had already been issued *)
+}.
 
 Record sess := mkS {
   tr : transport;
@@ -33,41 +41,56 @@ Record sess := mkS {
   accepted : list (list Z);                  (* ghost: payloads for which Send returned nil, in order *)
   clean : bool;                              (* ghost: nothing but Send / local Close / peer traffic happened so far (no fault, no peer close) *)
   lclosed : bool;                            (* ghost: Session.Close was called *)
-  wsend : bool                               (* ghost: a non-empty payload was accepted after a write fault was armed *)
+  wsend : bool;                              (* ghost: a non-empty payload was accepted after a write fault was armed *)
+  hx : hinfo                                 (* which handler is installed, which one was told about the exit *)
 }.
 
 Inductive act :=
 | Send (bs : list Z) (ok : bool)   (* Session.Send; ok = it returned nil *)
 | LocalClose                       (* Session.Close *)
 | StartAgain                       (* Session.Start once more: startOnce makes it a no-op *)
+| SetHandler (h : nat)             (* Session.UpdateHandler *)
 | PeerClose | PeerRead | PeerByte
 | RecvFault (k : rkind) | WriteFault (k : wkind)
 | SendStep | SendLost | RecvEnd.
 
 Inductive label :=
-| Start (i : nat) (t : transport) (reads : bool)    (* NewSession + Start on a connection *)
+| Start (i : nat) (t : transport) (reads : bool) (h : nat)   (* NewSession [+ UpdateHandler h when h > 0] + Start *)
 | Arrive (i : nat)                                  (* a client connects: connection i waits in the listener's queue *)
 | Accept (i : nat)                                  (* the accept loop takes the oldest waiting connection, i *)
+| AcceptFail                                        (* ln.Accept returns a temporary error: count it, back off, or give up *)
+| FdExhaust | FdRestore                             (* the environment: Accept cannot / can again obtain a descriptor *)
+| SrvClose                                          (* Server.Close: Accept returns a permanent error, the loop ends *)
 | On (i : nat) (a : act).
 
-Record st := mkSt { maxc : Z; cnt : Z; ss : list sess; pend : nat }.   (* pend: connections waiting to be accepted; their ids follow those of ss *)
+(* the accept goroutine's own state *)
+Record aloopst := mkAL {
+  amax : nat;       (* WithAccMaxRetry *)
+  aloop : bool;     (* loopAccept still runs *)
+  aretry : nat;     (* accRetryCount: temporary errors since the last successful Accept *)
+  fdlim : bool;     (* environment: Accept fails with a temporary error *)
+  sclosed : bool    (* ghost: Server.Close was called *)
+}.
+Record st := mkSt { maxc : Z; cnt : Z; ss : list sess; pend : nat; al : aloopst }.   (* pend: connections waiting to be accepted; their ids follow those of ss *)
 
 (* ---- field setters ---- *)
-Definition set_q s v := mkS (tr s) (started s) v (qclosed s) (copen s) (sendl s) (recvl s) (exited s) (onexit s) (wfail s) (rcause s) (peer_open s) (peer_reads s) (rcvd s) (inbox s) (accepted s) (clean s) (lclosed s) (wsend s).
-Definition set_qclosed s v := mkS (tr s) (started s) (q s) v (copen s) (sendl s) (recvl s) (exited s) (onexit s) (wfail s) (rcause s) (peer_open s) (peer_reads s) (rcvd s) (inbox s) (accepted s) (clean s) (lclosed s) (wsend s).
-Definition set_sendl s v := mkS (tr s) (started s) (q s) (qclosed s) (copen s) v (recvl s) (exited s) (onexit s) (wfail s) (rcause s) (peer_open s) (peer_reads s) (rcvd s) (inbox s) (accepted s) (clean s) (lclosed s) (wsend s).
-Definition set_recvl s v := mkS (tr s) (started s) (q s) (qclosed s) (copen s) (sendl s) v (exited s) (onexit s) (wfail s) (rcause s) (peer_open s) (peer_reads s) (rcvd s) (inbox s) (accepted s) (clean s) (lclosed s) (wsend s).
-Definition set_wfail s v := mkS (tr s) (started s) (q s) (qclosed s) (copen s) (sendl s) (recvl s) (exited s) (onexit s) v (rcause s) (peer_open s) (peer_reads s) (rcvd s) (inbox s) (accepted s) (clean s) (lclosed s) (wsend s).
-Definition set_rcause s v := mkS (tr s) (started s) (q s) (qclosed s) (copen s) (sendl s) (recvl s) (exited s) (onexit s) (wfail s) v (peer_open s) (peer_reads s) (rcvd s) (inbox s) (accepted s) (clean s) (lclosed s) (wsend s).
-Definition set_peer_open s v := mkS (tr s) (started s) (q s) (qclosed s) (copen s) (sendl s) (recvl s) (exited s) (onexit s) (wfail s) (rcause s) v (peer_reads s) (rcvd s) (inbox s) (accepted s) (clean s) (lclosed s) (wsend s).
-Definition set_peer_reads s v := mkS (tr s) (started s) (q s) (qclosed s) (copen s) (sendl s) (recvl s) (exited s) (onexit s) (wfail s) (rcause s) (peer_open s) v (rcvd s) (inbox s) (accepted s) (clean s) (lclosed s) (wsend s).
-Definition set_rcvd s v := mkS (tr s) (started s) (q s) (qclosed s) (copen s) (sendl s) (recvl s) (exited s) (onexit s) (wfail s) (rcause s) (peer_open s) (peer_reads s) v (inbox s) (accepted s) (clean s) (lclosed s) (wsend s).
-Definition set_inbox s v := mkS (tr s) (started s) (q s) (qclosed s) (copen s) (sendl s) (recvl s) (exited s) (onexit s) (wfail s) (rcause s) (peer_open s) (peer_reads s) (rcvd s) v (accepted s) (clean s) (lclosed s) (wsend s).
-Definition set_accepted s v := mkS (tr s) (started s) (q s) (qclosed s) (copen s) (sendl s) (recvl s) (exited s) (onexit s) (wfail s) (rcause s) (peer_open s) (peer_reads s) (rcvd s) (inbox s) v (clean s) (lclosed s) (wsend s).
-Definition set_clean s v := mkS (tr s) (started s) (q s) (qclosed s) (copen s) (sendl s) (recvl s) (exited s) (onexit s) (wfail s) (rcause s) (peer_open s) (peer_reads s) (rcvd s) (inbox s) (accepted s) v (lclosed s) (wsend s).
+Definition set_q s v := mkS (tr s) (started s) v (qclosed s) (copen s) (sendl s) (recvl s) (exited s) (onexit s) (wfail s) (rcause s) (peer_open s) (peer_reads s) (rcvd s) (inbox s) (accepted s) (clean s) (lclosed s) (wsend s) (hx s).
+Definition set_qclosed s v := mkS (tr s) (started s) (q s) v (copen s) (sendl s) (recvl s) (exited s) (onexit s) (wfail s) (rcause s) (peer_open s) (peer_reads s) (rcvd s) (inbox s) (accepted s) (clean s) (lclosed s) (wsend s) (hx s).
+Definition set_sendl s v := mkS (tr s) (started s) (q s) (qclosed s) (copen s) v (recvl s) (exited s) (onexit s) (wfail s) (rcause s) (peer_open s) (peer_reads s) (rcvd s) (inbox s) (accepted s) (clean s) (lclosed s) (wsend s) (hx s).
+Definition set_recvl s v := mkS (tr s) (started s) (q s) (qclosed s) (copen s) (sendl s) v (exited s) (onexit s) (wfail s) (rcause s) (peer_open s) (peer_reads s) (rcvd s) (inbox s) (accepted s) (clean s) (lclosed s) (wsend s) (hx s).
+Definition set_wfail s v := mkS (tr s) (started s) (q s) (qclosed s) (copen s) (sendl s) (recvl s) (exited s) (onexit s) v (rcause s) (peer_open s) (peer_reads s) (rcvd s) (inbox s) (accepted s) (clean s) (lclosed s) (wsend s) (hx s).
+Definition set_rcause s v := mkS (tr s) (started s) (q s) (qclosed s) (copen s) (sendl s) (recvl s) (exited s) (onexit s) (wfail s) v (peer_open s) (peer_reads s) (rcvd s) (inbox s) (accepted s) (clean s) (lclosed s) (wsend s) (hx s).
+Definition set_peer_open s v := mkS (tr s) (started s) (q s) (qclosed s) (copen s) (sendl s) (recvl s) (exited s) (onexit s) (wfail s) (rcause s) v (peer_reads s) (rcvd s) (inbox s) (accepted s) (clean s) (lclosed s) (wsend s) (hx s).
+Definition set_peer_reads s v := mkS (tr s) (started s) (q s) (qclosed s) (copen s) (sendl s) (recvl s) (exited s) (onexit s) (wfail s) (rcause s) (peer_open s) v (rcvd s) (inbox s) (accepted s) (clean s) (lclosed s) (wsend s) (hx s).
+Definition set_rcvd s v := mkS (tr s) (started s) (q s) (qclosed s) (copen s) (sendl s) (recvl s) (exited s) (onexit s) (wfail s) (rcause s) (peer_open s) (peer_reads s) v (inbox s) (accepted s) (clean s) (lclosed s) (wsend s) (hx s).
+Definition set_inbox s v := mkS (tr s) (started s) (q s) (qclosed s) (copen s) (sendl s) (recvl s) (exited s) (onexit s) (wfail s) (rcause s) (peer_open s) (peer_reads s) (rcvd s) v (accepted s) (clean s) (lclosed s) (wsend s) (hx s).
+Definition set_accepted s v := mkS (tr s) (started s) (q s) (qclosed s) (copen s) (sendl s) (recvl s) (exited s) (onexit s) (wfail s) (rcause s) (peer_open s) (peer_reads s) (rcvd s) (inbox s) v (clean s) (lclosed s) (wsend s) (hx s).
+Definition set_clean s v := mkS (tr s) (started s) (q s) (qclosed s) (copen s) (sendl s) (recvl s) (exited s) (onexit s) (wfail s) (rcause s) (peer_open s) (peer_reads s) (rcvd s) (inbox s) (accepted s) v (lclosed s) (wsend s) (hx s).
 
-Definition set_lclosed s v := mkS (tr s) (started s) (q s) (qclosed s) (copen s) (sendl s) (recvl s) (exited s) (onexit s) (wfail s) (rcause s) (peer_open s) (peer_reads s) (rcvd s) (inbox s) (accepted s) (clean s) v (wsend s).
-Definition set_wsend s v := mkS (tr s) (started s) (q s) (qclosed s) (copen s) (sendl s) (recvl s) (exited s) (onexit s) (wfail s) (rcause s) (peer_open s) (peer_reads s) (rcvd s) (inbox s) (accepted s) (clean s) (lclosed s) v.
+Definition set_lclosed s v := mkS (tr s) (started s) (q s) (qclosed s) (copen s) (sendl s) (recvl s) (exited s) (onexit s) (wfail s) (rcause s) (peer_open s) (peer_reads s) (rcvd s) (inbox s) (accepted s) (clean s) v (wsend s) (hx s).
+Definition set_wsend s v := mkS (tr s) (started s) (q s) (qclosed s) (copen s) (sendl s) (recvl s) (exited s) (onexit s) (wfail s) (rcause s) (peer_open s) (peer_reads s) (rcvd s) (inbox s) (accepted s) (clean s) (lclosed s) v (hx s).
+
+Definition set_hx s v := mkS (tr s) (started s) (q s) (qclosed s) (copen s) (sendl s) (recvl s) (exited s) (onexit s) (wfail s) (rcause s) (peer_open s) (peer_reads s) (rcvd s) (inbox s) (accepted s) (clean s) (lclosed s) (wsend s) v.
 
 Definition is_nil {A} (l : list A) : bool := match l with [] => true | _ => false end.
 Definition is_tcp (t : transport) : bool := match t with Tcp => true | Pipe => false end.
@@ -76,7 +99,8 @@ Definition is_tcp (t : transport) : bool := match t with Tcp => true | Pipe => f
 Definition quit (s : sess) : sess * bool :=
   if exited s then (s, false)
   else (mkS (tr s) (started s) (q s) true false (sendl s) (recvl s) true (S (onexit s)) (wfail s) (rcause s)
-            (peer_open s) (peer_reads s) (rcvd s) (inbox s) (accepted s) (clean s) (lclosed s) (wsend s), true).
+            (peer_open s) (peer_reads s) (rcvd s) (inbox s) (accepted s) (clean s) (lclosed s) (wsend s)
+            (mkHx (hid (hx s)) (hid (hx s)) (amb (hx s))), true).      (* s.rh, or the manager's handler, as it is at this moment *)
 
 (* a loop leaves through its deferred quit *)
 Definition leave_send (s : sess) : option (sess * bool) := let '(s1, d) := quit s in Some (set_sendl s1 false, d).
@@ -92,6 +116,8 @@ Definition sess_step (s : sess) (a : act) : option (sess * bool) :=
       else None
   | LocalClose => Some (set_lclosed (set_qclosed s true) true, false)  (* sendQ.Close *)
   | StartAgain => Some (s, false)
+  | SetHandler h =>                                 (* s.rh = rh : a plain store, whatever state the session is in *)
+      Some (set_hx s (mkHx h (exit_h (hx s)) (amb (hx s) || rcause s || lclosed s || wfail s)), false)
   | PeerClose => if peer_open s then Some (set_clean (set_rcause (set_peer_open s false) true) false, false) else None
   | PeerRead => if peer_open s && negb (peer_reads s) then Some (set_peer_reads s true, false) else None
   | PeerByte =>                                     (* the peer writes one ordinary byte *)
@@ -127,10 +153,10 @@ Definition sess_step (s : sess) (a : act) : option (sess * bool) :=
       if recvl s && (rcause s || negb (copen s)) then leave_recv s else None
   end.
 
-Definition fresh (t : transport) (reads : bool) : sess :=
-  mkS t true [] false true true true false 0%nat false false true reads 0%nat [] [] true false false.
+Definition fresh (t : transport) (reads : bool) (h : nat) : sess :=
+  mkS t true [] false true true true false 0%nat false false true reads 0%nat [] [] true false false (mkHx h 0%nat false).
 Definition rejected : sess :=
-  mkS Tcp false [] false false false false false 0%nat false false true true 0%nat [] [] true false false.
+  mkS Tcp false [] false false false false false 0%nat false false true true 0%nat [] [] true false false (mkHx 0%nat 0%nat false).
 
 Fixpoint upd {A} (i : nat) (x : A) (l : list A) : list A :=
   match l, i with
@@ -139,25 +165,40 @@ Fixpoint upd {A} (i : nat) (x : A) (l : list A) : list A :=
   | y :: r, S j => y :: upd j x r
   end.
 
+Definition set_aloop (a : aloopst) v := mkAL (amax a) v (aretry a) (fdlim a) (sclosed a).
+Definition set_aretry (a : aloopst) v := mkAL (amax a) (aloop a) v (fdlim a) (sclosed a).
+Definition set_fdlim (a : aloopst) v := mkAL (amax a) (aloop a) (aretry a) v (sclosed a).
+
 Definition step (t : st) (l : label) : option st :=
   match l with
-  | Start i trp reads =>
+  | Start i trp reads h =>
       if Nat.eqb i (length (ss t)) && Nat.eqb (pend t) 0
-      then Some (mkSt (maxc t) (cnt t + 1) (ss t ++ [fresh trp reads]) 0) else None
+      then Some (mkSt (maxc t) (cnt t + 1) (ss t ++ [fresh trp reads h]) 0 (al t)) else None
   | Arrive i =>
-      if Nat.eqb i (length (ss t) + pend t) then Some (mkSt (maxc t) (cnt t) (ss t) (S (pend t))) else None
-  | Accept i =>
-      if Nat.eqb i (length (ss t)) && negb (Nat.eqb (pend t) 0) then
+      if Nat.eqb i (length (ss t) + pend t) then Some (mkSt (maxc t) (cnt t) (ss t) (S (pend t)) (al t)) else None
+  | Accept i =>                                     (* conn, err = s.ln.Accept() with err == nil: the retry state is reset *)
+      if Nat.eqb i (length (ss t)) && negb (Nat.eqb (pend t) 0) && aloop (al t) && negb (fdlim (al t)) then
         if maxc t <=? cnt t                         (* s.ch.ConnCount() >= cnf.maxConn : conn.Close() *)
-        then Some (mkSt (maxc t) (cnt t) (ss t ++ [rejected]) (pred (pend t)))
-        else Some (mkSt (maxc t) (cnt t + 1) (ss t ++ [fresh Tcp true]) (pred (pend t)))   (* Do: NewSession, Start: count.Inc *)
+        then Some (mkSt (maxc t) (cnt t) (ss t ++ [rejected]) (pred (pend t)) (set_aretry (al t) 0%nat))
+        else Some (mkSt (maxc t) (cnt t + 1) (ss t ++ [fresh Tcp true 0%nat]) (pred (pend t)) (set_aretry (al t) 0%nat))   (* Do: NewSession, Start: count.Inc *)
       else None
+  | AcceptFail =>                                   (* handleErr: temporary error; accRetryCount++; >= acceptMaxRetry: return *)
+      if negb (Nat.eqb (pend t) 0) && aloop (al t) && fdlim (al t) then
+        let n := S (aretry (al t)) in
+        Some (mkSt (maxc t) (cnt t) (ss t) (pend t)
+                   (if Nat.leb (amax (al t)) n then set_aloop (set_aretry (al t) n) false else set_aretry (al t) n))
+      else None
+  | FdExhaust => if fdlim (al t) then None else Some (mkSt (maxc t) (cnt t) (ss t) (pend t) (set_fdlim (al t) true))
+  | FdRestore => if fdlim (al t) then Some (mkSt (maxc t) (cnt t) (ss t) (pend t) (set_fdlim (al t) false)) else None
+  | SrvClose =>                                     (* only with nothing waiting: the kernel resets what a closed listener had queued *)
+      if Nat.eqb (pend t) 0
+      then Some (mkSt (maxc t) (cnt t) (ss t) (pend t) (mkAL (amax (al t)) false (aretry (al t)) (fdlim (al t)) true)) else None
   | On i a =>
       match nth_error (ss t) i with
       | Some s =>
           if started s then
             match sess_step s a with
-            | Some (s', d) => Some (mkSt (maxc t) (if d then cnt t - 1 else cnt t) (upd i s' (ss t)) (pend t))
+            | Some (s', d) => Some (mkSt (maxc t) (if d then cnt t - 1 else cnt t) (upd i s' (ss t)) (pend t) (al t))
             | None => None
             end
           else None
@@ -168,16 +209,18 @@ Definition step (t : st) (l : label) : option st :=
 Fixpoint run (t : st) (ls : list label) : option st :=
   match ls with [] => Some t | l :: r => match step t l with Some t' => run t' r | None => None end end.
 
-Definition init (m c0 : Z) : st := mkSt m c0 [] 0.
+Definition init_al (r : nat) : aloopst := mkAL r true 0%nat false false.
+Definition init (m c0 : Z) (r : nat) : st := mkSt m c0 [] 0 (init_al r).
 
 Definition internal_act (a : act) : bool := match a with SendStep | SendLost | RecvEnd => true | _ => false end.
-Definition internal (l : label) : bool := match l with On _ a => internal_act a | Accept _ => true | _ => false end.
+Definition internal (l : label) : bool := match l with On _ a => internal_act a | Accept _ | AcceptFail => true | _ => false end.
 
 (* nothing the session's own goroutines could do next *)
 Definition none_opt {A} (o : option A) : bool := match o with None => true | Some _ => false end.
 Definition quiet (s : sess) : bool :=
   negb (started s) || (none_opt (sess_step s SendStep) && none_opt (sess_step s SendLost) && none_opt (sess_step s RecvEnd)).
-Definition stable (t : st) : bool := Nat.eqb (pend t) 0 && forallb quiet (ss t).
+(* a connection can only keep waiting when the accept loop is gone *)
+Definition stable (t : st) : bool := (Nat.eqb (pend t) 0 || negb (aloop (al t))) && forallb quiet (ss t).
 
 (* ---- the send loop before the repair 225387c (kept as a named variant; refuted in C16_Thm.v): a zero-length
    payload was treated like an invalid item and ended the loop ---- *)
@@ -202,7 +245,7 @@ Definition step_prefix (t : st) (l : label) : option st :=
       | Some s =>
           if started s then
             match sess_step_prefix s a with
-            | Some (s', d) => Some (mkSt (maxc t) (if d then cnt t - 1 else cnt t) (upd i s' (ss t)) (pend t))
+            | Some (s', d) => Some (mkSt (maxc t) (if d then cnt t - 1 else cnt t) (upd i s' (ss t)) (pend t) (al t))
             | None => None
             end
           else None
